@@ -10,6 +10,7 @@
 #undef private
 #include "kernel/simio.hpp"
 #include <fcntl.h>
+#include <poll.h>
 #include <unistd.h>
 #define protected public
 #define private public
@@ -25,8 +26,8 @@
 using namespace sim;
 using namespace mpt;
 
-enum { OP_COUNTER, OP_TAKE, OP_DROP, OP_WRAP_ASSIGN, OP_REFARRAY_SET, OP_REFARRAY_CLONE, OP_REFARRAY_WRITE, OP_REFARRAY_RELEASE, OP_CXXREF, OP_LIB_TAKE, OP_LIB_DROP, OP_LIB_NEW, OP_BUF_CLONE, OP_MISMATCH_CLONE, OP_CXX_REFARRAY, OP_CXX_ITEMS, OP_PLOT, OP_ADD_ITEMS };
-static const char *const OPS[] = {"COUNTER", "TAKE", "DROP", "ASSIGN_BY_CONVERSION", "REFARRAY_SET", "REFARRAY_CLONE", "REFARRAY_WRITE", "REFARRAY_RELEASE", "CXX_REFERENCE", "LIB_TAKE", "LIB_DROP", "LIB_NEW", "BUFFER_CLONE", "MISMATCHED_CLONE", "CXX_REFERENCE_ARRAY", "CXX_ITEM_ARRAY", "PLOT_OBJECTS", "ADD_ITEMS", 0};
+enum { OP_COUNTER, OP_TAKE, OP_DROP, OP_WRAP_ASSIGN, OP_REFARRAY_SET, OP_REFARRAY_CLONE, OP_REFARRAY_WRITE, OP_REFARRAY_RELEASE, OP_CXXREF, OP_LIB_TAKE, OP_LIB_DROP, OP_LIB_NEW, OP_BUF_CLONE, OP_MISMATCH_CLONE, OP_CXX_REFARRAY, OP_CXX_ITEMS, OP_PLOT, OP_ADD_ITEMS, OP_NOTIFY };
+static const char *const OPS[] = {"COUNTER", "TAKE", "DROP", "ASSIGN_BY_CONVERSION", "REFARRAY_SET", "REFARRAY_CLONE", "REFARRAY_WRITE", "REFARRAY_RELEASE", "CXX_REFERENCE", "LIB_TAKE", "LIB_DROP", "LIB_NEW", "BUFFER_CLONE", "MISMATCHED_CLONE", "CXX_REFERENCE_ARRAY", "CXX_ITEM_ARRAY", "PLOT_OBJECTS", "ADD_ITEMS", "NOTIFIER", 0};
 enum { FL_NONE, FL_ALLOC, FL_REFUSE };
 static const char *const FAULTS[] = {"none", "allocfail", "refuse_addref", 0};
 
@@ -64,6 +65,21 @@ template <typename T> struct Tr : public reference<T>::type {
 	const void *id() const { return static_cast<const metatype *>(this); }
 	long count() const { return (long) this->_ref.value(); }
 };
+// an input as the notifier holds them: counted like the other harness objects, bound to a simulated descriptor
+static std::set<const void *> g_input_live;
+struct HInput : public input {
+	int fd; long refs; int next_result;
+	explicit HInput(int f) : fd(f), refs(1), next_result(1) { g_input_live.insert(this); }
+	int convert(type_t t, void *ptr) override {
+		if (t == (type_t) TypeUnixSocket) { if (ptr) *(int *) ptr = fd; return 0; }
+		if (t == TypeMetaPtr) { if (ptr) *(metatype **) ptr = this; return 0; }
+		return BadType; }
+	void unref() override { Harness h; if (!g_input_live.count(this)) { pend("unref-after-destroy", "a reference was dropped on an input that is already destroyed"); return; } if (--refs <= 0) g_input_live.erase(this); }
+	uintptr_t addref() override { Harness h; if (!g_input_live.count(this)) { pend("addref-after-destroy", "a reference was taken on an input that is already destroyed"); return 0; } return (uintptr_t) ++refs; }
+	metatype *clone() const override { return 0; }
+	int next(int) override { Harness h; if (!g_input_live.count(this)) { pend("destroyed-early", "the notifier asked an input for work after its last reference was dropped"); return -1; } return next_result; }
+	int dispatch(event_handler_t, void *) override { return 0; }
+};
 struct PObj { metatype *mt; const void *id; std::function<long()> count; long mine; int level; const char *what; int nr; };
 
 
@@ -76,7 +92,7 @@ struct RefsWorld : World {
 	const char *const *faultnames() const override { return FAULTS; }
 	const char *components_json() const override {
 		return "{\"real\":[\"mpt_refcount_raise/lower\",\"C++ refcount wrapper\",\"mpt_data_converter(TypeMetaRef) (assignment of a held reference through conversion)\",\"mpt_meta_reference_traits in typed arrays (set, copy on detach, release)\","
-		       "\"C++ reference<T> copy/assign/detach\",\"_mpt_buffer_alloc vtable addref/unref + mpt_array_clone\",\"mpt_reply_deferrable context\",\"mpt_rawdata_create (mptplot)\",\"mpt_stream_input (destruction observed as close of its simulated descriptor)\",\"C++ metatype::generic\",\"C++ plot objects: reference<T>::type of layout, layout::graph, graph::world, graph::axis, cycle; graphic::add_layout/remove_layout, item_group::append/clone, layout::bind, graph::bind/add_world/add_axis/cycle/set_cycle/clone, graphic::mapping set_cycle/set_cycles/get_cycles/clear_cycles/clear, mpt::add_items\"],"
+		       "\"C++ reference<T> copy/assign/detach\",\"_mpt_buffer_alloc vtable addref/unref + mpt_array_clone\",\"mpt_reply_deferrable context\",\"mpt_rawdata_create (mptplot)\",\"mpt_stream_input (destruction observed as close of its simulated descriptor)\",\"C++ metatype::generic\",\"C++ plot objects: reference<T>::type of layout, layout::graph, graph::world, graph::axis, cycle; graphic::add_layout/remove_layout, item_group::append/clone, layout::bind, graph::bind/add_world/add_axis/cycle/set_cycle/clone, graphic::mapping set_cycle/set_cycles/get_cycles/clear_cycles/clear, mpt::add_items\",\"mpt_notify_add/wait/next/clear/fini (poll path) over counted inputs; mpt_input_reference_traits; reference_array over a large type; item_array compaction\"],"
 		       "\"stub\":[\"harness metatype objects counting addref/unref, refusing a reference when the plan says so\",\"allocator (ledger + n-th allocation fails)\",\"holder-count reference model\"]}";
 	}
 	RefsWorld() {
@@ -94,7 +110,7 @@ struct RefsWorld : World {
 		bool allocf = r.chance(1, 3), refuse = r.chance(1, 2);
 		p.set("inrefs", r.chance(1, 4));
 		for (int i = 0; i < nops; ++i) {
-			Op op; op.kind = (int) r.below(18);
+			Op op; op.kind = (int) r.below(19);
 			op.a = r.below(3) | (r.below(3) << 8) | (r.below(4) << 16); // object, second object, holder slot
 			op.b = r.below(6); op.c = r.below(1000);
 			if (refuse && r.chance(1, 4)) op.fault = FL_REFUSE;
@@ -621,6 +637,78 @@ struct RefsWorld : World {
 					fail(alive(i) && obj[i]->refs > before[i] ? "never-destroyed" : "destroyed-early", "after the nodes went away object %d counts %ld references, %ld before the episode", i, alive(i) ? obj[i]->refs : 0, before[i]);
 				if (ledger_live() != led0) fail("never-destroyed", "%zu block(s) more than before add_items are still allocated: %s", ledger_live() - led0, ledger_describe().c_str());
 				outcome = ok;
+				break;
+			}
+			case OP_NOTIFY: {
+				// a notifier as holder of input references: it owns one reference per registered input, gives it back when the input is
+				// cleared (or asks for work and is told "error"), when the notifier ends; a cleared input is never handed out afterwards
+				uint32_t x = (uint32_t) op.c * 2654435761u + 11u + (uint32_t) op.b * 131u;
+				size_t led0 = ledger_live();
+				// (the C structure, set up as MPT_NOTIFY_INIT does: a C++ `notify` object starts with a slot array of the C++ reference traits,
+				// which mpt_notify_add refuses as a foreign buffer - every add fails with BadType; noted in DESIGN.md)
+				notify *no = (notify *) calloc(1, sizeof(notify)); no->_sysfd = -1;
+				const int NI = 3; HInput *in[NI]; int chans[NI]; bool reg[NI] = {false, false, false}; long mine[NI];
+				for (int i = 0; i < NI; ++i) { chans[i] = simio::new_chan(4096); int fd = simio::new_fd(chans[i], -1, O_RDONLY | O_NONBLOCK); in[i] = new HInput(fd); mine[i] = 1; }
+				auto verifyN = [&](const char *after) {
+					check_pending();
+					for (int i = 0; i < NI; ++i) {
+						bool alive = g_input_live.count(in[i]) != 0; long want = mine[i] + (reg[i] ? 1 : 0);
+						if (!alive && want > 0) fail("destroyed-early", "after %s: input %d was destroyed while %ld holder(s) reference it (notifier: %d)", after, i, want, (int) reg[i]);
+						if (alive && in[i]->refs != want) fail(in[i]->refs > want ? "never-destroyed" : "count-mismatch", "after %s: input %d counts %ld references, %ld expected (harness %ld, notifier %d)", after, i, in[i]->refs, want, mine[i], (int) reg[i]);
+					}
+				};
+				const int steps = 6 + (int) (op.c % 3) * 5;
+				for (int k = 0; k < steps; ++k) {
+					x = x * 1664525u + 1013904223u;
+					unsigned act = (x >> 12) % 6; int i = (int) ((x >> 8) % NI);
+					uint64_t fn = ((x >> 4) & 3) == 0 ? 1 + ((x >> 6) % 2) : 0; bool fired = false; const char *what = "?";
+					switch (act) {
+					case 0: case 1: { what = "add";
+						if (reg[i] || !g_input_live.count(in[i]) || !mine[i]) break;
+						{ Sut su; in[i]->addref(); }
+						int rc; { Sut su(fn); rc = mpt_notify_add(no, POLLIN, in[i]); fired = g.fired; }
+						// the notifier took the reference, or says it did not
+						bool stored = false; { buffer *sb = *reinterpret_cast<buffer **>(&no->_slot); if (sb && (size_t) in[i]->fd < sb->_used / sizeof(void *)) stored = ((input **) (sb + 1))[in[i]->fd] == in[i]; }
+						if (rc >= 0 && !stored) fail("never-destroyed", "mpt_notify_add reports success (%d)%s but did not keep the input: the reference handed over is lost", rc, fired ? " after an allocation failure" : "");
+						if (rc < 0 && stored) fail("count-mismatch", "mpt_notify_add reports failure (%d) but kept the input", rc);
+						log.ev("    notifier add input %d (fd %d) -> %d stored=%d%s", i, in[i]->fd, rc, (int) stored, fired ? " allocfail" : "");
+						if (rc >= 0) reg[i] = true; else { Sut su; in[i]->unref(); }
+						break; }
+					case 2: { what = "clear"; if (!reg[i]) break; { Sut su; mpt_notify_clear(no, in[i]->fd); } reg[i] = false; break; }
+					case 3: { what = "wait";
+						// some inputs get data; one of them may answer the notifier's question with an error (it is cleared then)
+						for (int q = 0; q < NI; ++q) if ((x >> (20 + q)) & 1) { simio::Chan *c = simio::chan(chans[q]); c->wire.push_back((uint8_t) 'x'); simio::deliver(chans[q], 8); }
+						int bad = (x & 0x1000000) ? (int) ((x >> 26) % NI) : -1; if (bad >= 0) in[bad]->next_result = -1;
+						std::vector<int> was; for (int q = 0; q < NI; ++q) was.push_back(reg[q]);
+						int rc; { Sut su(fn); rc = mpt_notify_wait(no, POLLIN, 0); fired = g.fired; }
+						if (bad >= 0) { in[bad]->next_result = 1; if (was[bad]) { buffer *sb = *reinterpret_cast<buffer **>(&no->_slot); bool still = sb && (size_t) in[bad]->fd < sb->_used / sizeof(void *) && ((input **) (sb + 1))[in[bad]->fd] == in[bad]; if (!still) reg[bad] = false; } }
+						log.ev("    notifier wait -> %d", rc);
+						break; }
+					case 4: { what = "next";
+						input *n; { Sut su; n = mpt_notify_next(no); }
+						if (n) { int q = -1; for (int z = 0; z < NI; ++z) if (n == in[z]) q = z;
+							if (q < 0) fail("wrong-entry", "the notifier handed out an input nobody registered");
+							if (!reg[q]) fail("destroyed-early", "the notifier handed out input %d after it was cleared (its reference is gone)", q);
+							st.hit("probe:notifier_input_handed_out"); }
+						break; }
+					case 5: { what = "harness take/drop";
+						if (mine[i] > 0 && (x & 0x40000)) { --mine[i]; Sut su; in[i]->unref(); }
+						else if (g_input_live.count(in[i]) && mine[i] < 2) { { Sut su; in[i]->addref(); } ++mine[i]; }
+						break; }
+					}
+					if (fired) st.hit("fault:allocfail");
+					log.ev("    notifier %s input %d%s", what, i, fired ? " (allocation failed)" : "");
+					verifyN(what);
+				}
+				{ Sut su; mpt_notify_fini(no); } free(no);
+				for (int i = 0; i < NI; ++i) reg[i] = false;
+				verifyN("the notifier went away");
+				for (int i = 0; i < NI; ++i) { while (mine[i] > 0) { --mine[i]; Sut su; in[i]->unref(); } if (g_input_live.count(in[i])) fail("never-destroyed", "input %d survived its last reference (count %ld)", i, in[i]->refs); }
+				check_pending();
+				for (int i = 0; i < NI; ++i) { int fd = in[i]->fd; delete in[i]; close(fd); }
+				if (ledger_live() != led0) fail("never-destroyed", "%zu block(s) more than before the notifier episode are still allocated: %s", ledger_live() - led0, ledger_describe().c_str());
+				log.ev("NOTIFIER episode");
+				outcome = 1;
 				break;
 			}
 			case OP_BUF_CLONE: {
